@@ -12,6 +12,7 @@
 """
 import json
 import os
+import re
 import sys
 
 sys.path.insert(0, os.path.join(os.path.dirname(__file__), "..", "lib"))
@@ -21,14 +22,24 @@ PATHS = ["io", "q/src", "s/src", "w/io", "x/io", "y/io", "z/io0"]
 
 SIM_CFG = """SPECIFICATION Spec
 CONSTANTS
-  Prefixes <- MCPrefixes
-  AddNames <- MCAddNames4
+  Prefixes <- MCPrefixesS
+  AddNames <- MCAddNamesS
   Pkgs <- MCPkgsT
   DstPath = "x/io"
   MaxHist = %d
 CONSTRAINT EmitAtDepth
 CHECK_DEADLOCK FALSE
 """
+
+
+def unasc(s):
+    """model token QxxQ -> the rune it stands for (TLC only ever sees ASCII)"""
+    return re.sub(r"Q([0-9a-f]{2,5})Q", lambda m: chr(int(m.group(1), 16)), s)
+
+
+def asc(s):
+    """inverse of unasc, applied to everything recorded from the real code before TLC reads it"""
+    return "".join(c if ord(c) < 128 else "Q%xQ" % ord(c) for c in s)
 
 
 def universe(prefixes, names, pkgnames, upto=12):
@@ -101,6 +112,19 @@ def run(ctx):
     if len(cases_p) < 100:
         raise MachineryError(f"too few exported histories for the package alphabet ({len(cases_p)}): vacuous")
     cases += cases_p
+    # fourth / fifth alphabet: non-ASCII identifiers (as QxxQ tokens), and import paths whose byte-wise order
+    # differs from their element-wise order ('-' and '.' sort below '/')
+    tier = "thorough" if thorough else "quick"
+    for nm, least in (("uni", 50), ("paths", 50)):
+        rx = ctx.tlc("AllocMC", f"Alloc_{nm}_{tier}.cfg", workers=1, timeout=3000)
+        if rx.violated:
+            ctx.note(f"model-level: {rx.violated} violated on Alloc/{nm} (prediction only)")
+        elif not rx.ok:
+            raise MachineryError(f"TLC failed on Alloc ({nm} alphabet):\n" + rx.tail())
+        cx = [dict(c, dst="x/io", srcpath="", srcname="") for c in rx.prints("CASE")]
+        if len(cx) < least:
+            raise MachineryError(f"too few exported histories for the {nm} alphabet ({len(cx)}): vacuous")
+        cases += cx
     # third alphabet, deep: one prefix allocated ~30 times, 13 same-named packages (suffix / alias index >= 10)
     rd = ctx.tlc("AllocMC", "Alloc_deep_sim.cfg", workers=1, simulate="num=%d" % (120 if thorough else 40), depth=31,
                  timeout=600, count=False)
@@ -139,12 +163,15 @@ def run(ctx):
     inp = {"universe": uni, "cases": [{"inpkg": c["inpkg"], "dst": c["dst"], "srcpath": c["srcpath"], "srcname": c["srcname"],
                                         "ops": [{k: v for k, v in o.items() if k in ("op", "name", "prefix", "path")}
                                                 for o in c["ops"]]} for c in cases]}
-    (d / "cases.json").write_text(json.dumps(inp))
+    (d / "cases.json").write_text(unasc(json.dumps(inp)), encoding="utf-8")
     import subprocess
     p = subprocess.run([str(drv), str(d / "cases.json"), str(d / "trace.ndjson")], capture_output=True, text=True, timeout=600)
     if p.returncode != 0:
         raise MachineryError("alloc driver died: " + p.stderr[-500:])
-    events = [json.loads(x) for x in (d / "trace.ndjson").read_text().splitlines()]
+    events = [json.loads(asc(x)) for x in (d / "trace.ndjson").read_text(encoding="utf-8").splitlines()]
+    if not any("Qf6Q" in json.dumps(e) for e in events) or \
+       not any(e["op"] == "imports" and "x/io-b/c" in e["paths"] and "x/io/c" in e["paths"] for e in events):
+        raise MachineryError("vacuous: no replayed history with a non-ASCII name / with both path-order witnesses listed")
     ctx.cov["evaluations"] += len(cases)
     by_case = {}
     for e in events:
@@ -211,7 +238,9 @@ def run(ctx):
 # ---------------------------------------------------------------------- probe templates
 PKGS = {  # path suffix -> package name
     "x/io": "io", "y/io": "io", "z/io0": "io0", "w/io": "io", "q/src": "src",
+    "x/io-b/c": "c", "x/io/c": "c", "rp": "rp",
 }
+REPLACED = 7  # interfaces with i % REPLACED == 3 get replace-type x/io.T -> rp.T (the method's scope must see "rp")
 
 
 def tq(s):
@@ -230,14 +259,16 @@ def run_probe_templates(ctx, hists):
     SIGS = ["M(a xio.T, io yio.T, a1 string, _ zio.T) (io0 int)",
             "M(id xio.T, ID yio.T, a string) (A zio.T, err error)",
             "M(url int, Url yio.T, URL xio.T, io0 zio.T)",
-            "M(a int, a1 int, a2 xio.T, io yio.T) (io1 zio.T)"]
+            "M(a int, a1 int, a2 xio.T, io yio.T) (io1 zio.T)",
+            "M(g\u00f6 xio.T, \u043a yio.T, na\u00efve string) (g\u00f61 zio.T)",
+            "M(c xio.T, rp yio.T, c0 string) (rp0 zio.T)"]
     for i in range(len(hists)):
         src.append(f"type I{i} interface {{ {SIGS[i % len(SIGS)]} }}")
         if any(o["op"] == "suggest" for o in hists[i]["ops"]):
             src.append(f"type J{i} interface {{ {SIGS[i % len(SIGS)]} }}")
     files["src/src.go"] = "\n".join(src) + "\n"
-    uni = universe(["a", "a1", "io", "type", "src", "id", "ID", "url", "Url", "URL", "A", "err"],
-                   ["a", "a1", "a2", "io", "io0", "io1", "type1", "typeParam"], ["io", "io0", "src"])
+    uni = universe(["a", "a1", "io", "type", "src", "id", "ID", "url", "Url", "URL", "A", "err", "g\u00f6", "\u043a", "na\u00efve"],
+                   ["a", "a1", "a2", "io", "io0", "io1", "type1", "typeParam"], ["io", "io0", "src", "c", "rp"])
     w = ctx.new_world(files, module=mod, name="probeworld")
 
     def run_variant(off, inpkg):
@@ -293,11 +324,14 @@ def run_probe_templates(ctx, hists):
         dst = f"{mod}/src" if inpkg else f"{mod}/out"
         text = "\n".join(t) + "\n"
         text = text.replace("@INPKG@", "true" if inpkg else "false").replace("@DST@", dst)
-        (w / "probe.templ").write_text(text)
+        (w / "probe.templ").write_text(unasc(text), encoding="utf-8")
         conf = {"template": "file://" + str(w / "probe.templ"), "require-template-schema-exists": False, "formatter": "noop",
                 "dir": str(w / ("src" if inpkg else "out")), "filename": "{{.InterfaceName}}.txt",
                 "pkgname": "src" if inpkg else "out",
-                "packages": {f"{mod}/src": {"config": {"all": True}}}}
+                "packages": {f"{mod}/src": {"config": {"all": True}, "interfaces": {
+                    f"{k}{i}": {"config": {"replace-type": {f"{mod}/x/io": {"T": {"pkg-path": f"{mod}/rp", "type-name": "T"}}}}}
+                    for i in range(len(hists)) if i % REPLACED == 3
+                    for k in (("I", "J") if any(o["op"] == "suggest" for o in hists[i]["ops"]) else ("I",))}}}}
         (w / ".mockery.yml").write_text(json.dumps(conf))
         res = ctx.run_mockery(w, timeout=300)
         if res.code != 0:
@@ -310,8 +344,8 @@ def run_probe_templates(ctx, hists):
             if not f.exists():
                 raise MachineryError(f"probe output {f} missing")
             out = []
-            for ln in f.read_text().splitlines():
-                ln = ln.strip()
+            for ln in f.read_text(encoding="utf-8").splitlines():
+                ln = asc(ln.strip())
                 if not ln.startswith("{"):
                     continue
                 ln = ln.replace(',""]', "]").replace('[""]', "[]")
